@@ -4,3 +4,4 @@ INVARIANT NeverTouchedWithoutPermission
 INVARIANT RefusalNamesPermission
 INVARIANT RuntimeInv
 CHECK_DEADLOCK FALSE
+INVARIANT HistoryMeansLastCall
